@@ -327,6 +327,11 @@ func schedSuite(suite string, kinds []string, quickN, thoroughN int) suiteFunc {
 		if tier == "thorough" {
 			n = thoroughN
 		}
+		if suite == "schedC05" || suite == "schedC04" {
+			for i := 0; i < 4; i++ {
+				joinWindowCase(rng, w, suite)
+			}
+		}
 		if suite == "schedC09" {
 			for i := 0; i < 3; i++ {
 				windowCase(rng, w, suite)
@@ -437,6 +442,91 @@ func windowCase(rng *rand.Rand, w *Writer, suite string) {
 	w.Case(suite, []string{fmt.Sprintf("cfg=%d:0", opts.netID), fmt.Sprintf("apps=%x", uint64(a.ToInt64())), "pop=" + pop,
 		"pre=" + strings.Join(pre, "|"), "f1=" + e1, "f2=" + e2, "f3=" + e3, "kind=window", "sched="}, o1+"|"+o2)
 	w.Count("sched.window")
+}
+
+// One join-request heard by two gateways, the second report arriving while the first one's join-accept is waiting for its
+// receive window (real time, no stepping) - with the nonce check on (the copy is refused) and off (the copy is honoured as
+// well: it replaces the session and the record in the output buffer, its own notification is dropped as a duplicate, and the
+// ONE join-accept that leaves when the window opens is read from the buffer then). Whichever it is: one join-accept leaves,
+// and the session stored afterwards is the one that join-accept conveys.
+func joinWindowCase(rng *rand.Rand, w *Writer, suite string) {
+	nonceOff := rng.Intn(3) != 0
+	opts := worldOpts{netID: uint(rng.Intn(1 << 24)), rxDelay: 400 * time.Millisecond, disableNonceCheck: nonceOff}
+	world := newWorld(opts)
+	defer world.close()
+	h := &histRunner{w: world, rng: rng, tags: w.Stats, lastValid: map[int][]byte{}}
+	h.gws = []uint64{genEUI(rng), genEUI(rng)}
+	a := eui64(genEUI(rng))
+	h.apps = []protocol.EUI{a}
+	world.store.CreateApplication(model.Application{AppEUI: a})
+	world.watchApp(a)
+	d := &simDev{eui: eui64(genEUI(rng)), appeui: a, appkey: genKey(rng), otaa: true}
+	d.nwk, d.app = make([]byte, 16), make([]byte, 16)
+	if rng.Intn(2) == 0 {
+		// joining again from an established session
+		d.nwk, d.app = randBytes(rng, 16), randBytes(rng, 16)
+		d.addr = rng.Uint32() & 0x01ffffff
+		d.joined = true
+		d.fup0, d.fdn0 = []uint16{1, 100}[rng.Intn(2)], []uint16{1, 7}[rng.Intn(2)]
+	}
+	world.store.CreateDevice(mkDevice(d.eui, d.appeui, d.addr, d.appkey, d.nwk, d.app, d.fup0, d.fdn0, d.relaxed, model.OverTheAirDevice), d.appeui)
+	d.registered = true
+	h.devs = []*simDev{d}
+	pop := fmt.Sprintf("%x:%x:%s:%s:%s:%x:%d:%d:%d:%d", uint64(d.eui.ToInt64()), d.addr, hx(d.appkey), hx(d.nwk), hx(d.app),
+		uint64(d.appeui.ToInt64()), d.fup0, d.fdn0, b01(d.relaxed), int(model.OverTheAirDevice))
+	nonce := uint16(rng.Intn(65536))
+	d.lastNonce = nonce
+	f1 := refJoinRequest(d.appkey, d.appeui, d.eui, nonce)
+	type pk struct {
+		p                server.GatewayPacket
+		gw               uint64
+		ts               int64
+		datr             string
+		rssi             int32
+		snr8, ch, clock_ int
+	}
+	mk := func(gw uint64) pk {
+		x := pk{gw: gw, datr: datrs[rng.Intn(len(datrs))], rssi: int32(-rng.Intn(130)), snr8: rng.Intn(281) - 160, ch: rng.Intn(8), clock_: int(rng.Uint32())}
+		now := time.Now()
+		x.ts = now.UnixNano() - 1600000000000000000
+		x.p = server.GatewayPacket{
+			RawMessage: append([]byte{}, f1...),
+			Radio:      server.RadioContext{Channel: uint8(x.ch), RFChain: 0, Frequency: 868.1, DataRate: x.datr, Band: eu868, RSSI: x.rssi, SNR: float32(x.snr8) / 8},
+			Gateway:    server.GatewayContext{GatewayEUI: eui64(gw), GatewayHost: "127.0.0.1", GatewayPort: 1700, GatewayClock: uint32(x.clock_), ProtocolVersion: 2},
+			ReceivedAt: now,
+		}
+		return x
+	}
+	x1 := mk(h.gws[0])
+	world.inject(x1.p)
+	time.Sleep(30 * time.Millisecond) // well inside the first report's window
+	x2 := mk(h.gws[1])
+	world.inject(x2.p)
+	if !world.quiesce() {
+		w.Case(suite, []string{"kind=joinwindow", "pop=" + pop}, "HUNG")
+		return
+	}
+	downs, _, _ := world.collect()
+	var dl []string
+	appnonce, newaddr := "", uint32(0)
+	for _, x := range downs {
+		dl = append(dl, dlStr(x))
+		if len(x.RawMessage) == 17 && x.RawMessage[0]>>5 == 1 {
+			dec := aesEnc(d.appkey, x.RawMessage[1:])
+			appnonce = hx(dec[0:3])
+			newaddr = binary.LittleEndian.Uint32(dec[6:10])
+		}
+	}
+	if appnonce == "" {
+		appnonce, newaddr = h.recoverAppNonce(d)
+	}
+	sort.Strings(dl)
+	ev := func(x pk) string {
+		return fmt.Sprintf("R,%s,%x,%d,%s,%d/%d,%d,%d,%s,%x", hx(f1), x.gw, x.ts, x.datr, x.rssi, x.snr8, x.ch, x.clock_, appnonce, newaddr)
+	}
+	w.Case(suite, []string{fmt.Sprintf("cfg=%d:%d", opts.netID, b01(nonceOff)), fmt.Sprintf("apps=%x", uint64(a.ToInt64())), "pop=" + pop,
+		"pre=", "f1=" + ev(x1), "f2=" + ev(x2), "kind=joinwindow", "sched="}, "D["+strings.Join(dl, ";")+"] P[] "+h.dumpAll())
+	w.Count(fmt.Sprintf("sched.joinwindow.nonce-check-off=%d", b01(nonceOff)))
 }
 
 // Two devices that share a DevAddr (different keys; the decrypter tells them apart by the MIC) send a confirmed uplink
